@@ -383,12 +383,13 @@ async fn fam_uring(log: Log<String>, me: usize, s: Scn) {
 
 /// Logs the host's clocks when it is dropped: destructors run by `Sim::crash` / `Sim::bounce`
 /// observe virtual time only.
-struct ClockOnDrop(Log<String>, usize);
+struct ClockOnDrop(Log<String>, usize, tokio::time::Instant);
 impl Drop for ClockOnDrop {
     fn drop(&mut self) {
         // only inside a host context (a Sim that is dropped tears its hosts down outside of one)
         if let Some(se) = turmoil::sim_elapsed() {
-            self.0.push(format!("n{} dropped: sim_elapsed {:?} since_epoch {:?}", self.1, se, turmoil::since_epoch()));
+            // turmoil's clocks and tokio's own clock (time since this incarnation started)
+            self.0.push(format!("n{} dropped: sim_elapsed {:?} since_epoch {:?} tokio {:?}", self.1, se, turmoil::since_epoch(), self.2.elapsed()));
         }
     }
 }
@@ -402,7 +403,7 @@ fn host_program(log: Log<String>, me: usize, s: Scn, restarts: Rc<Cell<u32>>) ->
         log.push(format!("n{me} restart #{n}: sim_elapsed {:?} since_epoch {:?}", turmoil::sim_elapsed(), turmoil::since_epoch()));
     }
     async move {
-        let _clock_on_drop = ClockOnDrop(log.clone(), me);
+        let _clock_on_drop = ClockOnDrop(log.clone(), me, tokio::time::Instant::now());
         let mut hs = vec![];
         if s.fam_tcp {
             hs.push(tokio::task::spawn_local(fam_tcp(log.clone(), me, s.clone())));
